@@ -4,7 +4,7 @@ CONSTANTS
   B = 3
   RecMax = 1
   Bodies <- BodiesAll
-  Kinds <- KindsAll
+  Kinds <- KindsMC
   MaxDepth = 2
   Progs <- Programs
 INVARIANT TypeOK
